@@ -77,6 +77,92 @@ func directedCases(ps *paramSet, native string) []Case {
 	}
 }
 
+// strictSelectCases: selections (Mux / Select / Lookup2) mixing strictly reduced elements (ReduceStrict outputs,
+// inputs asserted in range) with one element that is not (non-canonical witness q / all-ones limbs, or an unreduced
+// sum), at the first / middle / last position and selected, followed by the ops whose documented result is that of
+// the canonical representative. A library that remembers "already strictly reduced" must not let the selection
+// inherit it from only some candidates.
+func strictSelectCases(ps *paramSet, native string) []Case {
+	q := ps.Q
+	one := big.NewInt(1)
+	qm1 := new(big.Int).Sub(q, one)
+	maxv := new(big.Int).Sub(pow2(uint(q.BitLen())), one)
+	nc := new(big.Int).Add(q, big.NewInt(5)) // q+5 when it fits the modulus width, else q itself
+	if nc.BitLen() > q.BitLen() {
+		nc = new(big.Int).Set(q)
+	}
+	mk := func(in []Input, ops []Op, export ...int) Case {
+		return Case{Params: ps.Name, Native: native, In: in, Ops: ops, Export: export}
+	}
+	// inputs: 0 = q-1, 1 = 5, 2 = non-canonical, 3 = all-ones limbs; ops 0,1: strict reductions -> pool 4, 5
+	in := []Input{wIn(ps, qm1), wIn(ps, big.NewInt(5)), wIn(ps, nc), wIn(ps, maxv)}
+	pre := []Op{{Op: "ReduceStrict", A: []int{0}}, {Op: "ReduceStrict", A: []int{1}}}
+	follow := func(x int) []Op {
+		return []Op{{Op: "ToBitsCanonical", A: []int{x}}, {Op: "ReduceStrict", A: []int{x}}, {Op: "IsZero", A: []int{x}},
+			{Op: "AssertIsLessOrEqual", A: []int{x + 1, 4}}, {Op: "ToBits", A: []int{x + 1}}}
+	}
+	seq := func(sel Op, tail []Op) []Op {
+		r := append([]Op{}, pre...)
+		r = append(r, sel)
+		return append(r, tail...)
+	}
+	var cs []Case
+	for _, odd := range []int{2, 3} {
+		// Mux, 3 inputs: the element that is not strictly reduced at each position, selected
+		for pos := 0; pos < 3; pos++ {
+			as := []int{4, 5}
+			as = append(as[:pos], append([]int{odd}, as[pos:]...)...)
+			cs = append(cs, mk(in, seq(Op{Op: "Mux", A: as, S: []int{pos}}, follow(6)), 7))
+			// in range must reject it (documented failure)
+			cs = append(cs, mk(in, seq(Op{Op: "Mux", A: as, S: []int{pos}}, []Op{{Op: "AssertIsInRange", A: []int{6}}})))
+		}
+		// selected element is a strictly reduced one although another candidate is not
+		cs = append(cs, mk(in, seq(Op{Op: "Mux", A: []int{4, 5, odd}, S: []int{0}}, append(follow(6), Op{Op: "AssertIsInRange", A: []int{6}})), 7))
+		// Mux with 2 and 5 inputs, last selected
+		cs = append(cs, mk(in, seq(Op{Op: "Mux", A: []int{4, odd}, S: []int{1}}, follow(6)), 7))
+		cs = append(cs, mk(in, seq(Op{Op: "Mux", A: []int{4, 5, 4, 5, odd}, S: []int{4}}, follow(6)), 7))
+		// Select (selector 1 returns the first operand) and Lookup2 at every position
+		cs = append(cs, mk(in, seq(Op{Op: "Select", A: []int{odd, 4}, S: []int{1}}, follow(6)), 7))
+		cs = append(cs, mk(in, seq(Op{Op: "Select", A: []int{4, odd}, S: []int{0}}, follow(6)), 7))
+		for pos := 0; pos < 4; pos++ {
+			as := []int{4, 5, 4}
+			as = append(as[:pos], append([]int{odd}, as[pos:]...)...)
+			cs = append(cs, mk(in, seq(Op{Op: "Lookup2", A: as, S: []int{pos & 1, pos >> 1}}, follow(6)), 7))
+		}
+	}
+	// strictness obtained through AssertIsInRange on the inputs themselves
+	cs = append(cs, mk(in, []Op{{Op: "AssertIsInRange", A: []int{0}}, {Op: "AssertIsInRange", A: []int{1}},
+		{Op: "Mux", A: []int{0, 1, 2}, S: []int{2}}, {Op: "ToBitsCanonical", A: []int{4}}, {Op: "ReduceStrict", A: []int{4}}, {Op: "IsZero", A: []int{4}}}, 5))
+	cs = append(cs, mk(in, []Op{{Op: "AssertIsInRange", A: []int{0}}, {Op: "AssertIsInRange", A: []int{1}},
+		{Op: "Mux", A: []int{0, 1, 3}, S: []int{2}}, {Op: "AssertIsInRange", A: []int{4}}}))
+	// an unreduced computation result (q-1 + all-ones) as the last, selected candidate
+	cs = append(cs, mk(in, seq(Op{Op: "Add", A: []int{0, 3}}, []Op{{Op: "Mux", A: []int{4, 5, 6}, S: []int{2}},
+		{Op: "ToBitsCanonical", A: []int{7}}, {Op: "ReduceStrict", A: []int{7}}, {Op: "IsZero", A: []int{7}}}), 8))
+	cs = append(cs, mk(in, seq(Op{Op: "Reduce", A: []int{3}}, []Op{{Op: "Mux", A: []int{4, 6}, S: []int{1}},
+		{Op: "ToBitsCanonical", A: []int{7}}, {Op: "ReduceStrict", A: []int{7}}}), 8))
+	return cs
+}
+
+func TestStrictSelectCases(t *testing.T) {
+	rec := ev.Get(ID)
+	rec.SetRule(rule)
+	sets := []string{"secp256k1fp", "small3x11", "goldilocks"}
+	if ev.Tier() == "thorough" {
+		sets = append(sets, "bn254fr", "odd5x13", "bls12381fp", "p384fp")
+	}
+	for pi, pn := range sets {
+		native := tierNatives()[pi%len(tierNatives())]
+		for _, c := range strictSelectCases(paramsByName(pn), native) {
+			for _, mode := range []string{"engine", "compiled"} {
+				c := c
+				c.Mode = mode
+				rec.Begin(mode, c)
+				rec.Report(t, mode, c, run(c, rec))
+			}
+		}
+	}
+}
+
 func TestDirectedCases(t *testing.T) {
 	rec := ev.Get(ID)
 	rec.SetRule(rule)
